@@ -654,6 +654,11 @@ class Check(common.Check):
         # ---- non-real time ----
         if 'exc' in nrt:
             return {'what': f'main.process raised {nrt["exc"]}', 'signature': 'c07:process-raised'}
+        if nrt.get('file') != nrt['raw']:
+            f_ = nrt.get('file') or ''
+            return {'what': f'score.write(path) (called twice on a path used before) left a file of {len(f_) // 2} bytes '
+                            f'({f_[:12]}...), the encoded score has {len(nrt["raw"]) // 2} bytes: the file must be exactly '
+                            'the encoding of the listed score', 'signature': 'c07:score-file'}
         expected = [[Fr(0), [{'s': '/g_new'}, 1, 0, 0]]]
         for rec in nrt['sends']:
             kind, val = self.send_value(case, rec['who'], rec['k'])
